@@ -455,6 +455,98 @@ func VHarness_C09_TanMultiplexedRemoveNode() {
 	vReach("done")
 }
 
+// C09 (Tan, multiplexed): log-file lifetime under compaction.  Two replicas
+// share one db; records are spread over log files (a rollover after every
+// second record, or after every record / every third in the thorough tier);
+// a sequence of appends, snapshot-only records and RemoveEntriesTo calls of
+// either replica must never make a file disappear that still holds the newest
+// state, the newest snapshot record or live entries of the other replica.
+//vcheck: reach=file-dropped,done workers=16 steps=3000000
+func VHarness_C09_TanCompaction() {
+	mem := gvfs.NewStrictMem()
+	env := &vTanEnv{mem: mem, inj: &vInj{mem: mem, crashAt: -1, failAt: -1}}
+	env.fs = gvfs.Wrap(mem, env.inj)
+	l, err := env.open()
+	vAssert(err == nil, "open-ok")
+	per := 2
+	if vTier() > 0 {
+		per = 1 + vChoose("recordsPerFile", 3)
+	}
+	d, _ := l.collection.getDB(1, 1)
+	records := 0
+	wrote := func(n int) {
+		for i := 0; i < n; i++ {
+			records++
+			if records%per == 0 {
+				d.mu.Lock()
+				vAssert(d.switchToNewLog() == nil, "rollover-ok")
+				d.mu.Unlock()
+			}
+		}
+	}
+	ms := []*vTanNode{{shard: 1, replica: 1}, {shard: 1, replica: 2}}
+	mk := func(m *vTanNode, n int) pb.Update {
+		var es []pb.Entry
+		first := uint64(1)
+		if len(m.log) > 0 {
+			first = m.last() + 1
+		}
+		for i := 0; i < n; i++ {
+			es = append(es, pb.Entry{Index: first + uint64(i), Term: 1, Cmd: []byte{byte(i), 0xcd}})
+		}
+		return pb.Update{ShardID: m.shard, ReplicaID: m.replica, State: pb.State{Term: 1, Vote: 1, Commit: first}, EntriesToSave: es}
+	}
+	ua, ub := mk(ms[0], 2), mk(ms[1], 2)
+	vAssert(l.SaveRaftState([]pb.Update{ua, ub}, 1) == nil, "first-save-ok")
+	ms[0].apply(ua)
+	ms[1].apply(ub)
+	wrote(2)
+	files0 := len(d.mu.versions.currentVersion().files)
+	steps := 6 + vTier()
+	for i := 0; i < steps; i++ {
+		op := vChoose("cop", 5)
+		m := ms[op%2]
+		switch op {
+		case 0, 1: // append two entries
+			u := mk(m, 2)
+			vAssert(l.SaveRaftState([]pb.Update{u}, 1) == nil, "save-ok")
+			m.apply(u)
+		case 2, 3: // snapshot-only record at the end of the log (SaveSnapshots)
+			vAssume(m.last() > m.ss.Index)
+			u := pb.Update{ShardID: m.shard, ReplicaID: m.replica, Snapshot: pb.Snapshot{ShardID: m.shard, Index: m.last(), Term: 1, Filepath: "/s"}}
+			vAssert(l.SaveSnapshots([]pb.Update{u}) == nil, "save-snapshot-ok")
+			m.apply(u)
+		case 4: // the replica that has a snapshot removes the entries it covers; the other one all but its last two
+			m = ms[1]
+			k := m.ss.Index
+			if k <= m.compactedTo {
+				m = ms[0]
+				k = m.last() - 2
+			}
+			vAssume(k > m.compactedTo && k >= m.first)
+			vAssert(l.RemoveEntriesTo(m.shard, m.replica, k) == nil, "remove-entries-ok")
+			m.compactedTo = k
+		}
+		wrote(1)
+	}
+	// paths on which no file left the version set are covered by TanModel
+	vAssume(len(d.mu.versions.obsoleteTables) > 0)
+	vReach("file-dropped")
+	_ = files0
+	vTanBgDelete(l)
+	for _, m := range ms {
+		vAssert(vTanDiff(l, m) == "", "after-compaction-"+vTanDiff(l, m))
+	}
+	vAssert(l.Close() == nil, "close-ok")
+	l, err = env.open()
+	vAssert(err == nil, "reopen-ok")
+	vTanBgDelete(l)
+	for _, m := range ms {
+		vTanCheck(l, m, "reopened-")
+	}
+	vReach("done")
+}
+
 // vTanSame reports whether the store's view of replica m equals model m in
 // everything a crash must preserve (term, vote, log, snapshot record; the
 // commit index is written without fsync by design and is not compared).
@@ -485,15 +577,22 @@ func vTanDiff(l *LogDB, m *vTanNode) string {
 		}
 		return "entries-present"
 	}
-	ents, _, err := l.IterateEntries(nil, 0, m.shard, m.replica, m.first, m.last()+8, 1<<40)
+	lo := m.first
+	if m.compactedTo >= lo {
+		lo = m.compactedTo + 1
+	}
+	if lo > m.last() {
+		return ""
+	}
+	ents, _, err := l.IterateEntries(nil, 0, m.shard, m.replica, lo, m.last()+8, 1<<40)
 	if err != nil {
 		return "entries-unreadable"
 	}
-	if len(ents) != len(m.log) {
+	if uint64(len(ents)) != m.last()+1-lo {
 		return "entry-count"
 	}
 	for i := range ents {
-		if ents[i].Index != m.log[i].Index || ents[i].Term != m.log[i].Term {
+		if ents[i].Index != lo+uint64(i) || ents[i].Term != m.log[ents[i].Index-m.first].Term {
 			return "entry-content"
 		}
 	}
